@@ -17,10 +17,13 @@
    C10_branch_closed_is_needed shows they fail outside it.  [vname_of n k] is
    n for k = 0 and n.(k-1) otherwise.
 
-   The key of the SSA version maps is not transcribed: Gen.SsaKey is read from
-   the text of ssa_impl.rs on every run (lib/props/c10key.py). *)
+   The key of the SSA version maps (Environment::version_key, private) is a
+   transcription, Model.UniqueVars.ssa_key; it is tied to the code through the
+   behaviour of into_ssa on every run (two (name, suffix) pairs that share a key
+   share a version counter: lib/props/C10.py ssa_failures), and read from the
+   text of ssa_impl.rs by a lint outside these obligations (c10key.py). *)
 From Coq Require Import List NArith.
-Require Import Gen.SsaKey Model.Base Model.Ir Model.UniqueVars Spec.ScopeSpec Proofs.ScopeStack Proofs.UniqueVarsProofs Proofs.ScopeBridge.
+Require Import Model.Base Model.Ir Model.UniqueVars Spec.ScopeSpec Proofs.ScopeStack Proofs.UniqueVarsProofs Proofs.ScopeBridge Proofs.UniqueVarsTable.
 Import ListNotations.
 
 (* every occurrence (declaration, assignment target, use) is renamed to the
@@ -78,6 +81,28 @@ Theorem C10_lifted_names_roundtrip : forall v,
 Proof. exact lifted_names_roundtrip. Qed.
 Print Assumptions C10_lifted_names_roundtrip.
 
+(* the `Declarations` table of the CFG header (one add_declaration per parameter
+   and per Declaration statement of the renamed body, keyed by the lifted name;
+   declarations.rs asserts that no key is inserted twice): on the output of the
+   pass it is built without that assert firing and without an invalid name, has
+   one row per parameter and declaration under pairwise different keys, and
+   get_declaration answers for the lifted name of a declaration with the
+   location and kind of THAT declaration (for a parameter: the parameter list,
+   a local variable).  Together with C10_renaming_preserves_binding (a use
+   carries the name of the declaration it denotes) this is the lookup
+   use -> declaration that into_ssa's `is_local` and the analyses rely on. *)
+Theorem C10_declaration_table_keyed_by_declaration : forall params ploc body body' reports,
+  ensure_unique_variables params ploc body = Renamed body' reports ->
+  Forall nodot (params ++ declared body) ->
+  exists t,
+    build_table params ploc body' = Ok (Some t) /\
+    length t = length params + length (decl_entries body') /\
+    NoDup (map fst t) /\
+    (forall p, In p params -> get_declaration_of (vname_plain p) t = Some (ploc, KVar)) /\
+    (forall n d v, In (n, d) (decl_entries body') -> lift_name n = Some v -> get_declaration_of v t = Some d).
+Proof. exact declaration_table_keyed_by_declaration. Qed.
+Print Assumptions C10_declaration_table_keyed_by_declaration.
+
 (* identifiers of the grammar contain no `.` *)
 Theorem C10_identifiers_have_no_dot : forall n, ident_ok n = true -> nodot n.
 Proof. exact ident_ok_nodot. Qed.
@@ -108,26 +133,15 @@ Theorem C10_separating_key_formats_injective : forall some none,
 Proof. exact separating_key_formats_injective. Qed.
 Print Assumptions C10_separating_key_formats_injective.
 
-(* the format Environment::version_key has in the current source is one *)
-Theorem C10_ssa_key_format_separates : key_format_ok version_key_some version_key_none = true.
-Proof. exact ssa_key_format_separates. Qed.
-Print Assumptions C10_ssa_key_format_separates.
-
-(* hence the key of the SSA version maps (after the repair of D20) identifies
-   the pair (name, suffix) *)
+(* the format of Model.UniqueVars.ssa_key (`name` / `name.suffix`) is one, hence
+   the key of the SSA version maps (after the repair of D20) identifies the
+   pair (name, suffix) *)
 Theorem C10_ssa_keys_injective : forall v1 v2,
   ident_ok (vn_name v1) = true -> ident_ok (vn_name v2) = true ->
   ssa_key v1 = ssa_key v2 ->
   vn_name v1 = vn_name v2 /\ vn_suffix v1 = vn_suffix v2.
 Proof. exact ssa_keys_injective. Qed.
 Print Assumptions C10_ssa_keys_injective.
-
-(* and every access to scoped_versions / global_versions in ssa_impl.rs is keyed
-   by the result of version_key *)
-Theorem C10_ssa_maps_keyed_by_version_key :
-  version_map_accesses <> [] /\ forallb (fun a => snd (snd a)) version_map_accesses = true.
-Proof. exact ssa_maps_keyed_by_version_key. Qed.
-Print Assumptions C10_ssa_maps_keyed_by_version_key.
 
 (* D20 (repaired by the fix: commit): the printed form used as key before did not *)
 Theorem C10_ssa_keys_injective_refuted : exists v1 v2,
@@ -180,6 +194,17 @@ Example C10_colliding_key_formats :
   ssa_key_with [KName; KLit [36%N]; KSuffix] [KName] (lifted_of nx 1) = ssa_key_with [KName; KLit [36%N]; KSuffix] [KName] (lifted_of nxd0 0) /\
   ident_ok nx = true /\ ident_ok nx0' = true /\ ident_ok nx0 = true /\ ident_ok nxd0 = true.
 Proof. repeat split; vm_compute; reflexivity. Qed.
+
+(* the table of the same witness: four rows; the inner x (renamed x.0) is found
+   under (x, suffix 0) with its own location, the outer x under (x, no suffix) *)
+Example C10_witness_table :
+  exists body' t,
+    ensure_unique_variables [na] (11, 12) d20 = Renamed body' [Shadowing nx (62, 71) (20, 29)] /\
+    build_table [na] (11, 12) body' = Ok (Some t) /\ length t = 4 /\
+    get_declaration_of (lifted_of nx 1) t = Some ((62, 71), KVar) /\
+    get_declaration_of (lifted_of nx 0) t = Some ((20, 29), KVar) /\
+    get_declaration_of (lifted_of na 0) t = Some ((11, 12), KVar).
+Proof. eexists. eexists. repeat split; vm_compute; reflexivity. Qed.
 
 Example C10_duplicate_parameter :
   ensure_unique_variables [na; nx; na] (11, 18) d20 = Collision (ParamCollision na (11, 18)).
